@@ -338,7 +338,7 @@ pub fn c07_strategy(t: Tier) -> BoxedStrategy<Value> {
         0u8..6,
         0u8..20,
         any::<bool>(),
-        prop_oneof![Just(0u32), Just(2048u32), Just(1024u32), Just(512u32)],
+        prop_oneof![3 => Just(0u32), 3 => Just(2048u32), 3 => Just(1024u32), 3 => Just(512u32), 1 => Just(384u32), 1 => Just(256u32), 1 => Just(192u32), 1 => Just(128u32), 1 => Just(64u32)],
     )
         .prop_map(|(n, shape, align, stamped, stack_kib)| {
             // a chain whose nodes leave their edges to Drop is reclaimed one node per grace period
@@ -388,6 +388,9 @@ pub fn exec_c07(_prop: &str, v: &Value) -> Report {
     let rounds = if c.stack_kib == 0 {
         run()
     } else {
+        if c.stack_kib <= 128 {
+            crate::runner::crash_context("stack<=128KiB");
+        }
         std::thread::Builder::new()
             .stack_size(c.stack_kib as usize * 1024)
             .spawn(run)
